@@ -18,8 +18,51 @@ from . import core, findings
 from .core import DISCHARGED, REFUTED, UNDECIDED, HERE
 
 
+class _UnitTimeout(BaseException):
+    pass
+
+
+# wall-clock budget of one unit (seconds): a changed tree may send the symbolic execution into a path explosion; the
+# unit is then UNDECIDED (exit 2), never a violation.  Units take at most ~2 minutes on the unchanged tree.
+UNIT_BUDGET = {"quick": int(os.environ.get("VF_UNIT_BUDGET_S", "1200")),
+               "thorough": int(os.environ.get("VF_UNIT_BUDGET_THOROUGH_S", "5400"))}
+
+
 def _run_unit(prop, unit_name, tier, seed):
+    import signal
     t0 = time.time()
+
+    fired = []
+
+    def _alarm(signum, frame):
+        # (re-armed: a harness that runs nanite natively catches BaseException; whatever it records then is discarded)
+        fired.append(1)
+        signal.alarm(5)
+        raise _UnitTimeout()
+    try:
+        signal.signal(signal.SIGALRM, _alarm)
+        signal.alarm(UNIT_BUDGET.get(tier, 1200))
+    except (ValueError, OSError):
+        pass
+    try:
+        res = _run_unit_inner(prop, unit_name, tier, seed)
+        if fired:
+            raise _UnitTimeout()
+    except _UnitTimeout:
+        res = core.UnitResult(unit=unit_name)
+        res.obligations.append(core.ObResult(
+            oid=f"{prop}.{unit_name}.within_time_budget", status=UNDECIDED, backend="engine",
+            detail=f"unit exceeded its wall-clock budget of {UNIT_BUDGET.get(tier)} s"))
+    finally:
+        try:
+            signal.alarm(0)
+        except (ValueError, OSError):
+            pass
+    res.time_s = round(time.time() - t0, 3)
+    return res.to_json()
+
+
+def _run_unit_inner(prop, unit_name, tier, seed):
     try:
         mod = importlib.import_module(f"vf.contracts.{prop.lower()}")
         unit = {u.name: u for u in mod.units(tier)}[unit_name]
@@ -29,10 +72,13 @@ def _run_unit(prop, unit_name, tier, seed):
         res.obligations.append(core.ObResult(
             oid=f"{prop}.{unit_name}.supported", status=UNDECIDED,
             backend="engine", detail=f"Unsupported: {exc}"))
+        if os.environ.get("VF_TRACE"):
+            sys.stderr.write(traceback.format_exc())
+    except _UnitTimeout:
+        raise
     except BaseException:
         res = core.UnitResult(unit=unit_name, error=traceback.format_exc())
-    res.time_s = round(time.time() - t0, 3)
-    return res.to_json()
+    return res
 
 
 def main(argv=None):
